@@ -35,7 +35,7 @@ type forgeState struct {
 
 var forgeRedirectOps = []string{"sig-flip-first", "sig-flip-mid", "sig-flip-last", "sig-truncate", "sig-empty", "sigalg-removed",
 	"sigalg-swap", "sigalg-dsa", "sigalg-unknown", "relay-changed", "relay-removed", "request-edited",
-	"dup-request-signed-first", "dup-request-evil-first", "dup-relay-signed-first", "dup-relay-evil-first", "to-post", "to-post-tampered", "post-body-overrides-request", "post-body-overrides-relay"}
+	"dup-request-signed-first", "dup-request-evil-first", "dup-relay-signed-first", "dup-relay-evil-first", "to-post", "to-post-tampered", "post-body-overrides-request", "post-body-overrides-relay", "relay-name-pct-encoded", "post-body-relay-with-empty-query-relay"}
 
 var forgeEnvelopedOps = []string{"sv-flip", "dv-flip", "attr-edit", "issuer-edit", "child-added", "issuer-dup-honest-evil",
 	"issuer-dup-evil-honest", "sig-stripped", "sv-emptied", "signedinfo-removed", "xsw-wrap-original", "xsw-sig-on-outer",
@@ -147,6 +147,16 @@ func forgeRedirect(fs *forgeState) {
 		fs.bodyOverride = []byte("SAMLRequest=" + evilReq)
 	case "post-body-overrides-relay":
 		fs.bodyOverride = []byte("RelayState=evil-relay")
+	case "relay-name-pct-encoded":
+		// net/http percent-decodes parameter NAMES too: "RelayStat%65" is a RelayState parameter for FormValue but not for
+		// a literal scan of the raw query
+		ps = append([]verify.RawParam{{Name: "RelayStat%65", RawVal: "evil-relay"}}, ps...)
+	case "post-body-relay-with-empty-query-relay":
+		// only meaningful for a message signed WITHOUT RelayState: an empty RelayState= in the query, the evil one in the body
+		ps = delRaw(ps, "RelayState")
+		ps = append(ps, verify.RawParam{Name: "RelayState", RawVal: ""})
+		fs.bodyOverride = []byte("RelayState=evil-relay")
+		t.SigIntact = false // the honest signature covered the original RelayState, which is gone
 	case "to-post", "to-post-tampered":
 		f := url.Values{}
 		for _, p := range ps {
